@@ -198,6 +198,27 @@ func c16Invalidations() []invDev {
 	post("ext-duplicate-key", "ext", "", "", func(r *reqSpec, req *signature.SignRequest, rs *envenc.RemoteSigner) {
 		req.ExtendedSignedAttributes = []signature.Attribute{attr("io.example.a", true, 1), attr("io.example.a", false, 2)}
 	})
+	// a text key that is not valid UTF-8 is a key neither format can represent (JSON replaces the bytes silently - two such keys can
+	// even collide -, a CBOR text string with such bytes is refused on reading)
+	post("ext-key-invalid-utf8", "ext", "", "", func(r *reqSpec, req *signature.SignRequest, rs *envenc.RemoteSigner) {
+		req.ExtendedSignedAttributes = []signature.Attribute{attr("k\xff", false, "v")}
+	})
+	post("ext-keys-invalid-utf8-colliding-after-replacement", "ext", "", "", func(r *reqSpec, req *signature.SignRequest, rs *envenc.RemoteSigner) {
+		req.ExtendedSignedAttributes = []signature.Attribute{attr("k\xff", false, "a"), attr("k\xfe", true, "b")}
+	})
+	// COSE: integer labels above the int64 range can be written but not read back by the library: not a request to sign
+	for _, bk := range []struct {
+		n string
+		k any
+	}{{"uint64(2^63)", uint64(1) << 63}, {"uint64(2^64-1)", ^uint64(0)}, {"uint(2^63)", uint(1) << 63}} {
+		bk := bk
+		for _, crit := range []bool{false, true} {
+			crit := crit
+			post(fmt.Sprintf("cose-ext-key-above-int64=%s(critical=%v)", bk.n, crit), "ext", "cose", "", func(r *reqSpec, req *signature.SignRequest, rs *envenc.RemoteSigner) {
+				req.ExtendedSignedAttributes = []signature.Attribute{attr(bk.k, crit, "out of range")}
+			})
+		}
+	}
 	// a repeated key whose first (or second) occurrence carries a nil value
 	post("ext-duplicate-key(first value nil)", "ext", "", "", func(r *reqSpec, req *signature.SignRequest, rs *envenc.RemoteSigner) {
 		req.ExtendedSignedAttributes = []signature.Attribute{attr("io.example.a", true, nil), attr("io.example.a", false, "b")}
@@ -235,6 +256,18 @@ func c16Invalidations() []invDev {
 				req.ExtendedSignedAttributes = []signature.Attribute{attr(h.n, crit, h.v)}
 			})
 		}
+	}
+	// JWS: names that differ from a specification header only by letter case (incl. U+017F, which JSON decoders fold to "s"): the
+	// reader would take them for the header itself
+	for _, lk := range []struct {
+		n string
+		v any
+	}{{"io.cncf.notary.signingtime", future.Format(time.RFC3339)}, {"IO.CNCF.NOTARY.SIGNINGTIME", future.Format(time.RFC3339)}, {"io.cncf.notary.signingscheme", envenc.SchemeX509},
+		{"io.cncf.notary.authenticsigningtime", future.Format(time.RFC3339)}, {"io.cncf.notary.ſigningTime", future.Format(time.RFC3339)}, {"io.cncf.notary.Expiry", future.Format(time.RFC3339)}, {"Cty", "text/plain"}, {"CRIT", []string{envenc.HdrScheme}}} {
+		lk := lk
+		post(fmt.Sprintf("jws-ext-key-look-alike=%q", lk.n), "ext", "jws", "", func(r *reqSpec, req *signature.SignRequest, rs *envenc.RemoteSigner) {
+			req.ExtendedSignedAttributes = []signature.Attribute{attr(lk.n, false, lk.v)}
+		})
 	}
 	for _, h := range []struct {
 		n string
